@@ -1,6 +1,6 @@
 """C04 configuration for ./check (keys: see checks/propcfg.py)."""
 CFG = {
-    "modules": ["VaxisModel.Props.C04", "VaxisModel.Props.C04Exit", "VaxisModel.Props.C04Prior", "VaxisModel.Props.C04Start", "VaxisModel.Props.C04Lex", "VaxisModel.Witness.F404"],
+    "modules": ["VaxisModel.Props.C04", "VaxisModel.Props.C04Exit", "VaxisModel.Props.C04Prior", "VaxisModel.Props.C04Start", "VaxisModel.Props.C04Lex", "VaxisModel.Props.C04AllGuards", "VaxisModel.Witness.F404"],
     "extractors": ["C04", "C07", "C18", "C11", "C01", "C10"],
     "drivers": ["C04"],
     "stateful": True,
@@ -44,7 +44,7 @@ CFG = {
                   "failed_startup_restores (every assignment, all values: what a failing New has written restores the terminal), early_exits_write_nothing, resume_failure_writes_nothing (the I/O-error guard of Resume true: nothing written, still suspended); sessions `startupfail` on a console whose size cannot be read. "
                   "Still assumed of the prior terminal (PriorOK): it implements what it advertises, answers the two queries with its current values, no hyperlink open. "
                   "The cursor style the terminal reports (0 if it does not answer) and the id of its "
-                  "OSC 176 reply are the prior ones; a terminal ignores private modes it did not advertise. balanced_all_guards restates balanced over guard functions (every String -> Bool that is false outside the nine guard variables is one of the 512 assignments: C04Guards.v_eq); the I/O-error returns of Resume (expr: guards) are assumed not taken. "
+                  "OSC 176 reply are the prior ones; a terminal ignores private modes it did not advertise. balanced_all_guards restates balanced over guard functions (every String -> Bool that is false outside the nine guard variables is one of the 512 assignments: C04Guards.v_eq); round 4: Props/C04AllGuards.balanced_no_io_error drops that hypothesis — ANY guard function whose I/O-error guard `expr:err != nil` is false (C04Restrict.interpS_restrict: the interpreter sees the guard function only through the nine variables, Vaxis's two flags and that error guard; lists_are_safe kernel-evaluated on the regenerated lists); the error guard true is resume_failure_writes_nothing / failed_startup_restores. "
                   "Sessions: while suspended the application only resumes or shuts down (Resume without Suspend / rendering while suspended are skipped). "
                   "Validated by correspondence only: that the model's token lists are the real bytes (incl. the writer prologue/epilogue and the direct-mapped run-time writes at real values); the signal path "
                   "(Close on the input goroutine) and panic path (an injected malformed report makes handleSequence panic in a child process; recover -> Close -> re-panic) are also exercised dynamically. "
